@@ -186,11 +186,177 @@ def cut_plans(name, k, ns):
     return plans, totals
 
 
+# ---------------------------------------------------------------------------------------------------
+# Part 2: two REAL workers (two DBStorage objects on one SQLite file, each with its real NotifyClient) behind the real
+# NotifyServer.handle_notify: the announcement must make the other worker push the event to its subscriber - under every
+# schedule of SQL round trips, pipe deliveries and tasks with <= d deviations, and under two default policies
+# ("disk first": SQL jobs before pipe deliveries; "network first": pipe deliveries before SQL jobs).
+RW_EV = make_event("A", 1, 300, [["t", "x"], ["e", "ab" * 32]], "announced across workers")
+RW_EV2 = make_event("A", 0, 301, [], "{}")
+
+
+class JobWriter:
+    """writer double whose every write is delivered to the peer's StreamReader by an explorer-visible job (FIFO per pipe)"""
+
+    def __init__(self, loop, reader, name, peername):
+        self.loop = loop
+        self.reader = reader
+        self.name = name
+        self.peername = peername
+        self.closed = False
+        self.queue = []
+
+    def write(self, data):
+        if self.closed:
+            raise ConnectionResetError("closed")
+        data = bytes(data)
+        item = [data]
+        self.queue.append(item)
+
+        def deliver():
+            self.queue.remove(item)
+            self.reader.feed_data(data)
+
+        job = self.loop.add_step_job("pipe", deliver, label=self.name)
+        job.enabled = lambda: self.queue and self.queue[0] is item
+
+    async def drain(self):
+        return None
+
+    def close(self):
+        self.closed = True
+
+    def get_extra_info(self, key):
+        return self.peername if key == "peername" else None
+
+
+def rw_scenario(backend, policy, evname):
+    from ..explorer import Scenario
+    import types
+
+    ev = RW_EV if evname == "tagged" else RW_EV2
+    state = {}
+
+    def setup(w):
+        ns = w.ns
+        N = ns.notifier
+        loop = w.loop
+        pending = []
+
+        async def fake_open_connection(address, port):
+            return pending.pop(0)
+
+        N.asyncio = types.SimpleNamespace(sleep=asyncio.sleep, open_connection=fake_open_connection, create_task=asyncio.create_task,
+                                          exceptions=asyncio.exceptions, start_server=None)
+        server = N.NotifyServer()
+        # second worker: its own DBStorage on the same database file (and the same single-writer lock model)
+        opts = dict(ns.Config.storage)
+        st2 = ns.db.DBStorage(dict(opts))
+        storages = [w.storage, st2]
+        for i, st in enumerate(storages):
+            r_srv = asyncio.StreamReader(loop=loop)
+            r_cli = asyncio.StreamReader(loop=loop)
+            w_cli = JobWriter(loop, r_srv, "w%d>S" % i, ("127.0.0.1", 7000 + i))
+            w_srv = JobWriter(loop, r_cli, "S>w%d" % i, ("127.0.0.1", 7000 + i))
+            pending.append((r_cli, w_cli))
+            loop.create_task(server.handle_notify(r_srv, w_srv))
+        loop.run_coro(st2.setup(), horizon=1e6)
+        # both NotifyClients (worker 1's was created by World's storage.setup()) are still in their initial sleep(2): let them connect
+        loop.drain(horizon=10.0)
+        if w.storage.notifier is None or w.storage.notifier.writer is None or st2.notifier.writer is None:
+            raise HarnessError("notifier clients did not connect")
+        state["st2"] = st2
+        w._extra_storages = [st2]
+
+    def connect(w, name, addr):
+        return w.connect(name, addr, storage=state["st2"] if name == "sub" else None)
+
+    def finish(w, x):
+        import sqlalchemy as sa
+
+        st2 = state.get("st2")
+        if st2 is not None:
+            try:
+                w.loop.run_coro(st2.close(), horizon=10.0)
+            except BaseException:
+                pass
+            try:
+                sa.event.remove(sa.engine.base.Engine, "connect", st2._set_sqlite_pragma)
+            except Exception:
+                pass
+        w.ns.notifier.asyncio = asyncio
+
+    script = [("sub", ["REQ", "x", {"kinds": [ev["kind"]]}]), ("pub", ["EVENT", ev])]
+    return Scenario("realworkers|%s|%s|%s" % (backend, policy, evname), backend, [("sub", "2.2.2.2"), ("pub", "1.1.1.1")], script,
+                    config={"run_notifier": True}, storage_options={"stats_interval": 1e15}, setup=setup, connect=connect, finish=finish,
+                    horizon=30.0, job_priority=(["pipe", "exec"] if policy == "network-first" else ["exec", "sqlopen", "sqlmisc", "sql"]))
+
+
+def rw_cases(tier):
+    from .. import explorer
+
+    out = []
+    for policy in ("disk-first", "network-first"):
+        for evname in ("tagged", "kind0"):
+            scn = rw_scenario("sql", policy, evname)
+            out.append(("rw", policy, evname, ()))
+            if tier == "thorough":
+                firsts, npts = explorer.first_level(scn)
+                for p in firsts:
+                    out.append(("rw", policy, evname, tuple(p)))
+    return out
+
+
+def run_rw(case, tier):
+    from .. import explorer
+    import json
+
+    _, policy, evname, prefix = case
+    scn = rw_scenario("sql", policy, evname)
+    ev = RW_EV if evname == "tagged" else RW_EV2
+    viol = []
+    cid = "realworkers|%s|%s" % (policy, evname)
+    stats = {"n": 0}
+    outcomes = set()
+
+    def on_exec(x):
+        stats["n"] += 1
+        sig = "sched=%s" % explorer.rle(x.choices)
+        sub = x.world.conns["sub"]
+        pub = x.world.conns["pub"]
+        oks = [json.loads(p) for k, _, p in pub.transcript if k == "send" and p.startswith('["OK"')]
+        pushes = [p for k, _, p in sub.transcript if k == "send" and p.startswith('["EVENT","x"') and ev["id"] in p]
+        outcomes.add((len(oks), len(pushes)))
+        if not (oks and oks[0][2] is True):
+            viol.append({"case": cid, "clause": "publisher-acknowledged", "sig": sig, "detail": "publisher got %r | %s %s" % (oks[:1], scn.name, x.choices)})
+        eose_seq = next((q for k, q, p in sub.transcript if k == "send" and p.startswith('["EOSE"')), None)
+        ev_seq = next((q for k, q, p in pub.transcript if k == "recv" and '"EVENT"' in p), None)
+        # a stored copy in addition to the live push is allowed while the subscriber's stored query was still running (C05)
+        allowed = (1, 2) if (eose_seq is None or ev_seq is None or eose_seq > ev_seq) else (1,)
+        if not (oks and oks[0][2] is True):
+            pass
+        elif len(pushes) not in allowed:
+            viol.append({"case": cid, "clause": "other-worker-pushes-like-a-local-event", "sig": sig,
+                         "detail": "event accepted by worker 1 reached the subscriber of worker 2 %d times (expected exactly once) | %s schedule=%s" % (
+                             len(pushes), scn.name, x.choices)})
+        if x.world.loop.handler_errors:
+            viol.append({"case": cid, "clause": "no-stray-exceptions", "sig": sig, "detail": repr(x.world.loop.handler_errors[:2])})
+
+    if not prefix:
+        explorer.explore(scn, 1 if tier == "quick" else 0, on_exec)
+    else:
+        explorer.explore(scn, 1, on_exec, root_prefix=list(prefix))
+    return {"id": "%s|p=%s" % (cid, explorer.rle(list(prefix))), "viol": viol, "outcome": sorted(map(repr, outcomes)), "outcome_is_set": True,
+            "evals": stats["n"], "states": stats["n"], "transitions": stats["n"], "nontrivial": True,
+            "desc": {"scenario": "rw", "k": policy, "lo": evname, "hi": list(prefix), "tier": tier},
+            "extra": {"realworker_executions": stats["n"]}, "sample": {"scenario": scn.name, "prefix": list(prefix), "executions": stats["n"]}}
+
+
 def cases(tier):
     from .. import env
 
     ns = env.boot()
-    out = []
+    out = list(rw_cases(tier))
     k = 2 if tier == "quick" else 3
     for name in SCENARIOS:
         plans, totals = cut_plans(name, k if len(SCENARIOS[name][1]) < 6 or tier == "thorough" else k, ns)
@@ -219,7 +385,16 @@ def plans_for(name, k, tier, ns):
     return _PLANS[key]
 
 
+_TIER = {}
+
+
+def worker_init(tier):
+    _TIER["tier"] = tier
+
+
 def describe(case):
+    if case[0] == "rw":
+        return {"scenario": "rw", "k": case[1], "lo": case[2], "hi": list(case[3]), "tier": _TIER.get("tier", "quick")}
     return {"scenario": case[0], "k": case[1], "lo": case[2], "hi": case[3], "tier": case[4]}
 
 
@@ -260,6 +435,8 @@ def judge(name, cuts, order, announced, result, errors, viol, cid):
 def run_case(case):
     from .. import env
 
+    if case[0] == "rw":
+        return run_rw(case, _TIER.get("tier", "quick"))
     name, k, lo, hi, tier = case
     ns = env.boot()
     viol = []
@@ -288,6 +465,12 @@ def coverage(tier, agg):
 
 
 def replay(desc):
+    if desc["scenario"] == "rw":
+        _TIER["tier"] = desc.get("tier", "quick")
+        r = run_case(("rw", desc["k"], desc["lo"], tuple(desc["hi"])))
+        for v in r["viol"][:20]:
+            print(v["clause"], v["detail"][:500])
+        return r["viol"]
     r = run_case((desc["scenario"], desc["k"], desc["lo"], desc["hi"], desc.get("tier", "quick")))
     for v in r["viol"][:20]:
         print(v["clause"], v["detail"][:500])
